@@ -1,8 +1,8 @@
 PROP = dict(
     id="C06",
     lean_modules=["TongoProofs.C06"],
-    gen=["MinBits"],
-    spec_ops=("bs.spec",),
+    gen=["MinBits", "BitConsts"],
+    spec_ops=("bs.spec", "bs.cellspec"),
     rule="operation sequences of 20..200 random items over all 28 read/write/skip/grow/append/copy methods on "
          "capacities 0..2000 (boundaries over-weighted), widths 0..64 biased to 0/1/7/8/9/55..58/63/64, big-int widths "
          "1..257, unary up to 100, plus the same vocabulary on fresh and BOC-parsed cells with reference slots, and CopyRemaining after k NextRef for every reference count 0..4, every k, every bit-cursor alignment, with ResetCounters interleaved; "
@@ -15,14 +15,15 @@ PROP = dict(
         "hand model lean/TongoModel/BitString.lean (+ BitOps.lean) tied to boc/bitString.go, boc/cell.go by "
         "line-by-line correspondence on every run (bs.seq, bs.grid, bs.cell, bs.fromfift, bs.minbits); bs.spec lines are "
         "answered on the Lean side by the ideal bit list itself (the specification), so a mismatch there is a violation",
-        "translator X4 (harness/cmd/extract) regenerating minBitsRequired/tab64 from boc/bitString.go; theorem "
-        "gen_minBitsRequired ties it to the hand model",
+        "translator X4 (harness/cmd/extract) regenerating minBitsRequired/tab64 from boc/bitString.go (theorem "
+        "gen_minBitsRequired) and translator BitConsts (CellBits, ReadUint/ReadInt/WriteUnary limits, 0b111 masks, "
+        "suffixToBits table; theorems gen_bit_constants, gen_suffixToBits_sound/complete)",
         "Go runtime semantics assumed by the model: index/slice out of range panics, shifts >= width give 0, negative shift "
         "count panics, int64/uint64 wrap-around, make() zero-fills, append() keeps the prefix",
     ],
     assumptions=[
-        "Go `int` arguments (widths, counts, indices) are modelled as natural numbers: negative arguments (Skip(-1), "
-        "ReadUint(-1), ...) are outside the model and outside the property's quantifier",
+        "Go `int` arguments are integers in the ZOp layer (negative counts take the branch the repaired Go code takes); "
+        "Grow keeps a natural argument",
         "WriteBigUint is stated for non-negative values (big.Int two's-complement bits of a negative argument are modelled "
         "and compared with Go, but not part of the specification)",
         "aliasing is outside the value-level model: ReadBytes on the aligned path returns a sub-slice of the buffer, "
@@ -33,13 +34,13 @@ PROP = dict(
         "a nil slot in the middle are not described",
     ],
     partial=[
-        "On/Off, NextRef beyond its limits, SetTopUppedArray on non-canonical arrays "
-        "(missing tag => error), lower-case and malformed Fift text are modelled and checked by correspondence and by "
-        "go.topup/go.refs/go.copyrem/go.parsedwrite/go.fiftreject (cells: theorems ref_overflow, copyRemaining_spec, "
-        "copyRemaining_after_reset, parsed_cell_inv)",
-        "ops_sequence is stated for well-formed operations (Op.WF): uint64/int64 argument ranges, WriteInt width <= 64, "
-        "WriteBigInt with a representable value and width >= 1, WriteBigUint with a non-negative value, source bit strings "
-        "that hold their bits; operations outside WF are covered by the correspondence only",
+        "Grow with a negative argument (shrinks the capacity, possibly below the length or below zero) and NewBitString with a "
+        "negative size are outside the model; On/Off at a position between the written length and the capacity are "
+        "accepted by the code and dirty the buffer tail (theorem on_beyond_len_witness states the limit)",
+        "value-range conditions that remain in Op.WF / ZOp.WF: uint64/int64 ranges given by the Go types, WriteInt width <= 64, "
+        "WriteBigInt with a representable value (width >= 1), WriteBigUint with a non-negative value, source bit strings that "
+        "hold their bits; outside them the model is compared with Go but the specification is not stated",
+        "BinaryString / Print are not modelled",
     ],
     level="proof",
     level_text="Lean 4 theorems about a byte-level model of boc.BitString (buffer bytes, cap/len/rCursor, Go's byte "
@@ -59,7 +60,7 @@ PROP = dict(
                "(ReadBigUint partial byte, ReadBits dirty tail, parsed-cell buffer, WriteInt width 0/1) and the non-ASCII "
                "Fift-hex acceptance were reproduced on the Go code, repaired by fix: commits, and the model describes the "
                "repaired code; witnesses of the old behaviour are theorems about the `...Old` definitions and corpus lines. "
-               "Also theorems: ToFiftHex = hex text of the abstract bits and BitStringFromFiftHex(ToFiftHex s) = the same bits for every length and content (fifthex_roundtrip); the first ceil(len/8) buffer bytes are the canonical packing of the bits (canonical_buffer). GetTopUppedArray = canonical topped-up bytes, SetTopUppedArray inverts it, and the repaired Cell.setTopUppedArray establishes the invariant with capacity 1023 for any parsed data (parsed_cell_inv). CopyRemaining = unread bits + unread references with the source cursors unchanged (copyRemaining_spec). Not theorems: On/Off, lower-case / malformed Fift text (correspondence + direct oracles only).",
+               "Also theorems: ToFiftHex = hex text of the abstract bits and BitStringFromFiftHex(ToFiftHex s) = the same bits for every length and content (fifthex_roundtrip); the first ceil(len/8) buffer bytes are the canonical packing of the bits (canonical_buffer). GetTopUppedArray = canonical topped-up bytes, SetTopUppedArray inverts it, and the repaired Cell.setTopUppedArray establishes the invariant with capacity 1023 for any parsed data (parsed_cell_inv). CopyRemaining = unread bits + unread references with the source cursors unchanged (copyRemaining_spec). Round 2: int arguments of any sign (zop_refines, zops_sequence, negative_read_errs), On/Off (onOff_refines), the exact language of BitStringFromFiftHex incl. lower case and every malformed text (fifthex_parse_spec), SetTopUppedArray on any tagged array and its error path, and cell-level sequences over a heap of cells with explicit aliasing (cell_ops_sequence, cell_ref_limits, cell_nextRef_resets_child) and cell_no_panic (no cell-level sequence without Grow/Append panics: CopyRemaining's internal panics are unreachable also with shared / self-referencing cells).",
     level_note="trusted: Lean kernel; the hand model's fidelity to boc/bitString.go and boc/cell.go is checked, not proved "
                "(>= 15 000 compared lines per quick run, 196 000 thorough, incl. the exhaustive offset x width grid); "
                "translator X4 for minBitsRequired; Go runtime semantics listed in trusted_base",
